@@ -18,6 +18,7 @@ def setFlag (fl : Flags) (kv : String) : Flags :=
   | ["atomic", v] => { fl with bundleAtomic := bit v }
   | ["normal", v] => { fl with normalOnly := bit v }
   | ["dupin", v] => { fl with dupInputsRejected := bit v }
+  | ["clock", v] => { fl with clockChecked := bit v }
   | _ => fl
 
 def showList (l : List Nat) : String := ",".intercalate (l.map toString)
